@@ -40,8 +40,11 @@ static inline std::vector<ld> randorth(size_t n, Rng& g) {
     return X;
 }
 template<typename T> struct tn; template<> struct tn<float> { static const char* n() { return "float"; } }; template<> struct tn<double> { static const char* n() { return "double"; } };
-enum { S_MGSR = 0, S_MGSR_EXPR = 1, S_PIVV = 2, S_PIVV_EXPR = 3, S_PIVM = 4, S_PIVM_EXPR = 5 };
-static const char* const SNAME[6] = {"mgsr", "mgsr_expr", "pivv", "pivv_expr", "pivm", "pivm_expr"};
+enum { S_MGSR = 0, S_MGSR_EXPR = 1, S_PIVV = 2, S_PIVV_EXPR = 3, S_PIVM = 4, S_PIVM_EXPR = 5,
+       S_MGSR_SUM = 6, S_MGSR_TRANS = 7, S_PIVV_SUM = 8, S_PIVM_TRANS = 9 };
+static const char* const SNAME[10] = {"mgsr", "mgsr_expr", "pivv", "pivv_expr", "pivm", "pivm_expr", "mgsr_sum", "mgsr_trans", "pivv_sum", "pivm_trans"};
+static inline bool is_piv(int S) { return (S >= 2 && S <= 5) || S >= 8; }
+static inline bool is_pmat(int S) { return S == 4 || S == 5 || S == 9; }
 template<typename T, size_t n, int S> struct call_qr;
 template<typename T, size_t n> struct call_qr<T, n, S_MGSR> { static void go(const Tensor<T,n,n>& A, Tensor<T,n,n>& Q, Tensor<T,n,n>& R, Tensor<size_t,n>&, Tensor<T,n,n>&) { qr(A, Q, R); } };
 template<typename T, size_t n> struct call_qr<T, n, S_MGSR_EXPR> { static void go(const Tensor<T,n,n>& A, Tensor<T,n,n>& Q, Tensor<T,n,n>& R, Tensor<size_t,n>&, Tensor<T,n,n>&) { qr<QRCompType::MGSR>(A + T(0), Q, R); } };
@@ -49,6 +52,14 @@ template<typename T, size_t n> struct call_qr<T, n, S_PIVV> { static void go(con
 template<typename T, size_t n> struct call_qr<T, n, S_PIVV_EXPR> { static void go(const Tensor<T,n,n>& A, Tensor<T,n,n>& Q, Tensor<T,n,n>& R, Tensor<size_t,n>& P, Tensor<T,n,n>&) { qr<QRCompType::MGSRPiv>(A + T(0), Q, R, P); } };
 template<typename T, size_t n> struct call_qr<T, n, S_PIVM> { static void go(const Tensor<T,n,n>& A, Tensor<T,n,n>& Q, Tensor<T,n,n>& R, Tensor<size_t,n>&, Tensor<T,n,n>& PM) { qr<QRCompType::MGSRPiv>(A, Q, R, PM); } };
 template<typename T, size_t n> struct call_qr<T, n, S_PIVM_EXPR> { static void go(const Tensor<T,n,n>& A, Tensor<T,n,n>& Q, Tensor<T,n,n>& R, Tensor<size_t,n>&, Tensor<T,n,n>& PM) { qr<QRCompType::MGSRPiv>(A + T(0), Q, R, PM); } };
+// lazy arguments that are not "tensor + scalar": a sum of two tensors (A + Z, Z all zero: exact) and a transpose
+// (trans(At) with At the transposed input: exact)
+template<typename T, size_t n> static inline Tensor<T,n,n> zeros_like(const Tensor<T,n,n>&) { Tensor<T,n,n> Z; for (size_t i = 0; i < n * n; ++i) Z.data()[i] = T(0); return Z; }
+template<typename T, size_t n> static inline Tensor<T,n,n> transposed(const Tensor<T,n,n>& A) { Tensor<T,n,n> B; for (size_t i = 0; i < n; ++i) for (size_t j = 0; j < n; ++j) B(i, j) = A(j, i); return B; }
+template<typename T, size_t n> struct call_qr<T, n, S_MGSR_SUM> { static void go(const Tensor<T,n,n>& A, Tensor<T,n,n>& Q, Tensor<T,n,n>& R, Tensor<size_t,n>&, Tensor<T,n,n>&) { Tensor<T,n,n> Z = zeros_like(A); qr(A + Z, Q, R); } };
+template<typename T, size_t n> struct call_qr<T, n, S_MGSR_TRANS> { static void go(const Tensor<T,n,n>& A, Tensor<T,n,n>& Q, Tensor<T,n,n>& R, Tensor<size_t,n>&, Tensor<T,n,n>&) { Tensor<T,n,n> At = transposed(A); qr(trans(At), Q, R); } };
+template<typename T, size_t n> struct call_qr<T, n, S_PIVV_SUM> { static void go(const Tensor<T,n,n>& A, Tensor<T,n,n>& Q, Tensor<T,n,n>& R, Tensor<size_t,n>& P, Tensor<T,n,n>&) { Tensor<T,n,n> Z = zeros_like(A); qr<QRCompType::MGSRPiv>(A + Z, Q, R, P); } };
+template<typename T, size_t n> struct call_qr<T, n, S_PIVM_TRANS> { static void go(const Tensor<T,n,n>& A, Tensor<T,n,n>& Q, Tensor<T,n,n>& R, Tensor<size_t,n>&, Tensor<T,n,n>& PM) { Tensor<T,n,n> At = transposed(A); qr<QRCompType::MGSRPiv>(trans(At), Q, R, PM); } };
 } // namespace qrr
 
 // lc10 = 10 * log10(cond)
@@ -67,7 +78,7 @@ void run_qrreal(unsigned seed, int lc10) {
     Tensor<T,n,n> Q, R, PM; Tensor<size_t,n> PV;
     for (size_t i = 0; i < n * n; ++i) { Q.data()[i] = T(77); R.data()[i] = T(77); PM.data()[i] = T(77); }
     for (size_t i = 0; i < n; ++i) PV.data()[i] = 77;
-    const bool piv = S >= S_PIVV, pmat = S >= S_PIVM;
+    const bool piv = is_piv(S), pmat = is_pmat(S);
     call_qr<T, n, S>::go(A, Q, R, PV, PM);
     T det = determinant<DetCompType::QR>(A);
     Tensor<T,n,n> Qd, Rd; qr(A, Qd, Rd);
